@@ -678,9 +678,9 @@ def u_start(ip: Interp, th: PoolTheory):
 # flush / gather_and_close / until_closed   (C13, C08, C12, C03)
 # ======================================================================================================
 def c_pop_ended_meta_tasks(ip: Interp, st: St, fr, selfv, args):
-    """ASSUMED contract of _pop_ended_meta_tasks (not verified against its body: nested loops over a dict of
-    sets mutated during iteration; listed in the trusted base, covered by the bounded monitor only):
-    removes exactly the done spawners from the per-group sets (dropping empty groups) and returns them."""
+    """contract of _pop_ended_meta_tasks, verified against its body in unit pool.BaseTaskPool._pop_ended_meta_tasks (three
+    loop invariants): removes exactly the done spawners from the per-group sets (dropping empty groups), returns them,
+    touches nothing else."""
     th: PoolTheory = ip.theory
     p0 = PView(st)
     M0 = st.sh["_group_meta_tasks_running"]
@@ -699,7 +699,6 @@ def c_pop_ended_meta_tasks(ip: Interp, st: St, fr, selfv, args):
     return [(st, ended)]
 
 
-ASSUMED_CONTRACTS = ["pool.BaseTaskPool._pop_ended_meta_tasks (removes exactly the done meta tasks, returns them) - assumed, not verified against its body"]
 
 FLUSH_FRAME = ("_tasks_running", "_num_started", "_locked", "_closed", "_enough_room", "_task_groups", "size")
 
@@ -1029,3 +1028,112 @@ def u_release_callback(ip: Interp, th: ConsumerTheory):
 
 UNITS.append(Unit(P_T + "_get_map_end_callback.release_callback", u_release_callback, ("C05", "C12", "C03"), [P_T + "_get_map_end_callback", "helpers.execute_optional"],
                   theory_factory=lambda: ConsumerTheory("TaskPool"), trusted=TRUSTED))
+
+
+# ======================================================================================================
+# _pop_ended_meta_tasks  (verified against its body; the contract used by flush)      (C07, C08)
+# ======================================================================================================
+def _done(sh, t):
+    return z3.Select(sh["loc"].t, t) == L_DONE
+
+
+def inv_pop_inner(c):
+    """while M[g]: move its members to `ended` (done) or `still_running` (not done).  st0 = entry of this inner loop"""
+    g = c.loc("group_name").t
+    p0, p1 = PView(c.st0), PView(c.st)
+    t = z3.Const("t!l", Ref)
+    h = z3.Const("h!l", S)
+    ended0, ended1 = c.loc0("ended_meta_tasks"), c.loc("ended_meta_tasks")
+    still0, still1 = c.loc0("still_running"), c.loc("still_running")
+    cur = lambda tt: p1.Mset(g, tt)
+    orig = lambda tt: p0.Mset(g, tt)
+    moved = lambda tt: z3.And(orig(tt), z3.Not(cur(tt)))
+    return [("keys-unchanged-other-groups-untouched", z3.ForAll([h], z3.And(p1.M.has(h) == p0.M.has(h), z3.Implies(h != g, z3.Select(p1.M.cols[0], h) == z3.Select(p0.M.cols[0], h))))),
+            ("the-group-only-shrinks", z3.ForAll([t], z3.Implies(cur(t), orig(t)))),
+            ("ended-gets-exactly-the-moved-done-ones", z3.ForAll([t], ended1.has(t) == z3.Or(ended0.has(t), z3.And(moved(t), _done(c.st.sh, t))))),
+            ("still-running-gets-exactly-the-moved-live-ones", z3.ForAll([t], still1.has(t) == z3.Or(still0.has(t), z3.And(moved(t), z3.Not(_done(c.st.sh, t))))))]
+
+
+def inv_pop_outer(c):
+    """for g in M: ...   st0 = entry of the outer loop; keys visited so far are ks[0..i)"""
+    p0, p1 = PView(c.st0), PView(c.st)
+    ks = c.it.seq
+    j = z3.Int("j!l")
+    t = z3.Const("t!l", Ref)
+    h = z3.Const("h!l", S)
+    mm = z3.Int("m!l")
+    pos = c.it.pos
+    visited = lambda hh: z3.And(p0.M.has(hh), z3.Select(pos, hh) < c.i)
+    ended = c.loc("ended_meta_tasks")
+    obs: SeqV = c.loc("obsolete_keys")
+    okey = lambda m_: z3.Select(obs.arrs[0], m_)
+    live = lambda hh, tt: z3.And(p0.Mset(hh, tt), z3.Not(_done(c.st.sh, tt)))
+    wit = c.st.loc["$livewit"].arrs[0]  # ghost: a live member of every visited group that keeps one
+    opos = c.st.loc["$opos"].arrs[0]  # ghost: position in obsolete_keys of a visited group without live members
+    return [("keys-unchanged", z3.ForAll([h], p1.M.has(h) == p0.M.has(h))),
+            ("visited-groups-are-filtered-unvisited-untouched", z3.ForAll([h, t], z3.Implies(p0.M.has(h), p1.Mset(h, t) == z3.If(visited(h), live(h, t), p0.Mset(h, t))))),
+            ("ended-collects-the-done-members-of-visited-groups", z3.ForAll([t], ended.has(t) == z3.Exists([h], z3.And(visited(h), p0.Mset(h, t), _done(c.st.sh, t))))),
+            ("obsolete-keys-are-exactly-the-visited-groups-without-live-members", z3.And(
+                obs.n >= 0,
+                z3.ForAll([mm], z3.Implies(z3.And(0 <= mm, mm < obs.n), z3.And(visited(okey(mm)), z3.Select(opos, okey(mm)) == mm, z3.ForAll([t], z3.Not(live(okey(mm), t)))))),
+                z3.ForAll([h], z3.Implies(visited(h), z3.Or(z3.And(0 <= z3.Select(opos, h), z3.Select(opos, h) < obs.n, okey(z3.Select(opos, h)) == h), live(h, z3.Select(wit, h)))))))]
+
+
+def inv_pop_delete(c):
+    """for g in obsolete_keys: del M[g]    st0 = entry of this loop"""
+    p0, p1 = PView(c.st0), PView(c.st)
+    obs: SeqV = c.loc("obsolete_keys")
+    h = z3.Const("h!l", S)
+    mm = z3.Int("m!l")
+    okey = lambda m_: z3.Select(obs.arrs[0], m_)
+    return [("deleted-exactly-the-first-i-obsolete-keys", z3.ForAll([h], z3.And(
+        p1.M.has(h) == z3.And(p0.M.has(h), z3.Not(z3.Exists([mm], z3.And(0 <= mm, mm < c.i, okey(mm) == h)))),
+        z3.Implies(p1.M.has(h), z3.Select(p1.M.cols[0], h) == z3.Select(p0.M.cols[0], h)))))]
+
+
+LOOPSPECS[(P_B + "_pop_ended_meta_tasks", 1)] = LoopSpec(inv_pop_outer, ("C07", "C08"), name="each-group")
+LOOPSPECS[(P_B + "_pop_ended_meta_tasks", 2)] = LoopSpec(inv_pop_inner, ("C07", "C08"), name="drain-group")
+LOOPSPECS[(P_B + "_pop_ended_meta_tasks", 3)] = LoopSpec(inv_pop_delete, ("C07", "C08"), name="drop-empty")
+
+
+@unit(P_B + "_pop_ended_meta_tasks", ("C07", "C08"), [P_B + "_pop_ended_meta_tasks"])
+def u_pop_ended(ip: Interp, th: PoolTheory):
+    install(ip)
+    st = th.initial()
+    st0 = st.fork()
+    p0 = PView(st0)
+    st.loc["$livewit"] = SeqV(z3.IntVal(0), [fresh("livewit", z3.ArraySort(S, Ref))], sym.IntL())
+    st.loc["$opos"] = SeqV(z3.IntVal(0), [fresh("opos", z3.ArraySort(S, I))], sym.IntL())
+
+    def empty_list(s, fr, hint):
+        return [(s, SeqV(0, [fresh("lst", z3.ArraySort(I, S))], sym.StrL(), mutable=True))]
+
+    th.empty_list = empty_list
+
+    def on_setitem(s, fr, cont, key_t, v):
+        # M[g] = still_running (non-empty): remember one live member (ghost witness; a non-empty set has a member)
+        if isinstance(v, SetV) and "$livewit" in s.loc:
+            w = fresh("live_member", Ref)
+            s.assume(z3.Implies(v.card > 0, v.has(w)))
+            lw = s.loc["$livewit"]
+            s.loc["$livewit"] = SeqV(lw.n, [z3.Store(lw.arrs[0], key_t, w)], lw.layout)
+
+    th.on_setitem = on_setitem
+
+    def on_append(s, fr, place, lst, item):
+        if isinstance(item, StrV) and "$opos" in s.loc:
+            op = s.loc["$opos"]
+            s.loc["$opos"] = SeqV(op.n, [z3.Store(op.arrs[0], item.t, lst.n)], op.layout)
+
+    th.on_append = on_append
+    g, t = z3.Const("g!p", S), z3.Const("t!p", Ref)
+    for s, v in run_body(ip, th, st, P_B + "_pop_ended_meta_tasks", {}):
+        if isinstance(v, Exit):
+            no_exit(ip, s, "noraise:" + v.val.cls, ("C07",))
+            continue
+        p1 = PView(s)
+        done = lambda tt: _done(st0.sh, tt)
+        ip.require(s, "post:exactly-the-live-members-remain", z3.ForAll([g, t], z3.And(p1.M.has(g), p1.Mset(g, t)) == z3.And(p0.M.has(g), p0.Mset(g, t), z3.Not(done(t)))), ("C07", "C08"))
+        ip.require(s, "post:no-new-group", z3.ForAll([g], z3.Implies(p1.M.has(g), p0.M.has(g))), ("C07",))
+        ip.require(s, "post:returns-exactly-the-done-members", z3.ForAll([t], v.has(t) == z3.Exists([g], z3.And(p0.M.has(g), p0.Mset(g, t), done(t)))) if isinstance(v, SetV) else z3.BoolVal(False), ("C07", "C08"))
+        unchanged(ip, s, st0, "touches-only-the-meta-task-registry", ("C07",), except_=("_group_meta_tasks_running",))
